@@ -144,3 +144,102 @@ Proof.
     apply nth_error_app_Some. rewrite ones_from_shift, nth_error_map.
     fold (ones (bits 64 w)). rewrite Hoff. reflexivity.
 Qed.
+
+(** * the next-1 scan over the following words *)
+Lemma next_one_scan_eq fuel ws wordI l :
+  next_one_scan fuel ws wordI l =
+  if wordI <? l then
+    match fuel with
+    | O => None
+    | S f => match nthZ ws wordI with
+             | None => None
+             | Some w => if negb (w =? 0) then Some (Z.shiftl wordI 6 + tz64 w)
+                         else next_one_scan f ws (wordI + 1) l
+             end
+    end
+  else Some (Z.shiftl l 6).
+Proof. destruct fuel; reflexivity. Qed.
+
+(** the scan returns the first 1 of the suffix, or [64 * len] when there is none *)
+Lemma next_one_scan_spec ws : words_ok ws -> forall fuel k,
+  (k <= length ws)%nat -> (length ws <= k + fuel)%nat ->
+  next_one_scan fuel ws (Z.of_nat k) (zlen ws) =
+  Some (hd (64 * zlen ws) (ones_from (64 * Z.of_nat k) (flat (skipn k ws)))).
+Proof.
+  intros Hok. induction fuel as [|fuel IH]; intros k Hk Hfuel.
+  all: rewrite next_one_scan_eq; unfold zlen.
+  all: destruct (Z.ltb_spec (Z.of_nat k) (Z.of_nat (length ws))) as [Hlt|Hge];
+    [|rewrite rest_ones_past by lia; cbn [hd]; now rewrite shiftl_6].
+  - lia.
+  - destruct (nth_error_exists ws k ltac:(lia)) as [w Hw]. rewrite nthZ_of_nat, Hw.
+    pose proof (words_ok_nth _ _ _ Hok Hw) as Hwr.
+    rewrite (skipn_nth_cons _ _ _ Hw), flat_cons.
+    destruct (Z.eqb_spec w 0) as [->|Hne]; cbn [negb].
+    + rewrite bits_zero, ones_from_repeat_false.
+      replace (Z.of_nat k + 1) with (Z.of_nat (S k)) by lia.
+      fold (zlen ws). rewrite IH by lia. do 3 f_equal. lia.
+    + rewrite ones_from_app.
+      destruct (ones_from_tz (64 * Z.of_nat k) w ltac:(lia)) as [r Hr]. rewrite Hr.
+      cbn [app hd]. now rewrite shiftl_6.
+Qed.
+
+(** * after the [i]-th 1 has been found at offset [off] of [w]: clear the bits up to
+      and including [off]; the next 1 is the lowest remaining bit of the word, or the
+      first 1 of the following words, or there is none *)
+Definition next_spec (ws : list Z) (i : nat) : Z :=
+  if Z.of_nat i + 1 <? zlen (all_ones ws) then nth (S i) (all_ones ws) 0 else 64 * zlen ws.
+
+Lemma next_spec_Some ws i b : nth_error (all_ones ws) (S i) = Some b -> next_spec ws i = b.
+Proof.
+  intros H. unfold next_spec, zlen.
+  assert (S i < length (all_ones ws))%nat by (apply nth_error_Some; congruence).
+  destruct (Z.ltb_spec (Z.of_nat i + 1) (Z.of_nat (length (all_ones ws)))); [|lia].
+  now apply nth_error_nth.
+Qed.
+
+Lemma next_spec_None ws i : nth_error (all_ones ws) (S i) = None -> next_spec ws i = 64 * zlen ws.
+Proof.
+  intros H. unfold next_spec, zlen. apply nth_error_None in H.
+  destruct (Z.ltb_spec (Z.of_nat i + 1) (Z.of_nat (length (all_ones ws)))); [lia|reflexivity].
+Qed.
+
+Lemma sel_next ws i k w f off : words_ok ws -> sel_state ws i k w f ->
+  nth_error (ones (bits 64 w)) f = Some off ->
+  let w2 := clear_below (off + 1) w in
+  if w2 =? 0 then next_one_scan (length ws) ws (Z.of_nat k + 1) (zlen ws) = Some (next_spec ws i)
+  else 64 * Z.of_nat k + tz64 w2 = next_spec ws i.
+Proof.
+  intros Hok (Hk & Hw & Hst) Hoff w2.
+  destruct (ones_from_nth_rank _ _ _ _ Hoff) as (Hoff0 & Hcnt & Hbit).
+  rewrite Z.sub_0_r in Hcnt, Hbit.
+  set (q := Z.to_nat off) in *.
+  assert (Hq : (q < 64)%nat).
+  { assert (q < length (bits 64 w))%nat by (apply nth_error_Some; congruence).
+    now rewrite bits_length in *. }
+  assert (Ew2 : w2 = clear_below (Z.of_nat (S q)) w) by (unfold w2, q; f_equal; lia).
+  set (b := 64 * Z.of_nat k).
+  (* the 1s of the cleared word = the 1s of [w] after the first [f+1] *)
+  assert (E : ones_from b (bits 64 w2) = skipn (S f) (ones_from b (bits 64 w))).
+  { rewrite Ew2, ones_from_clear_below by lia. f_equal.
+    rewrite (ones_from_firstn_succ b _ q Hbit). f_equal.
+    rewrite (ones_from_length_indep b 0). exact Hcnt. }
+  assert (Hlenf : (f < length (ones_from b (bits 64 w)))%nat).
+  { rewrite (ones_from_length_indep b 0). apply nth_error_Some. unfold ones in Hoff. congruence. }
+  specialize (Hst 1%nat). replace (i + 1)%nat with (S i) in Hst by lia.
+  replace (f + 1)%nat with (S f) in Hst by lia. rewrite rest_ones_split in Hst. fold b in Hst.
+  pose proof (clear_below_word (off + 1) w Hw) as Hw2r. fold w2 in Hw2r.
+  destruct (Z.eqb_spec w2 0) as [Ez|Hne].
+  - (* no 1 left in this word *)
+    rewrite Ez, bits_zero, ones_from_all_false in E. symmetry in E.
+    apply skipn_nil_length in E.
+    rewrite nth_error_app2 in Hst by lia.
+    replace (S f - length (ones_from b (bits 64 w)))%nat with 0%nat in Hst by lia.
+    replace (Z.of_nat k + 1) with (Z.of_nat (S k)) by lia.
+    rewrite (next_one_scan_spec ws Hok) by lia. f_equal.
+    destruct (ones_from (64 * Z.of_nat (S k)) (flat (skipn (S k) ws))) as [|x r]; cbn [hd].
+    + symmetry. now apply next_spec_None.
+    + symmetry. now apply next_spec_Some.
+  - destruct (ones_from_tz b w2 ltac:(lia)) as [r Hr]. rewrite Hr in E.
+    symmetry. apply next_spec_Some. rewrite Hst. apply nth_error_app_Some.
+    replace (S f) with (S f + 0)%nat by lia. rewrite <- nth_error_skipn_add, <- E. reflexivity.
+Qed.
